@@ -326,6 +326,49 @@ theorem collision_paths_agree (c : Cfg) (inc out : OpenMsg) (hinc : validateOpen
 example : collideOutgoingFirst ⟨65001, 1, 65002, 90, 30, 30, 0⟩ ⟨4, 65002, 2, 1⟩ ⟨4, 65002, 2, 90⟩
     = .session .o ⟨4, 65002, 2, 90⟩ := by decide
 
+/-! ## the N dimension (RFC 8538) -/
+
+/-- RFC 8538 4: with notification support negotiated, a NOTIFICATION by which the speaker ends
+    the session for good — Cease with subcode maximum-prefixes (1), administrative shutdown (2),
+    peer de-configured (3) — goes out as Cease / Hard Reset (9); administrative reset (4) and
+    everything that is not a Cease stay what they are.  Without it nothing is converted. -/
+def rfc8538 (n : Bool) (code sub : Nat) : Nat × Nat :=
+  if n = true ∧ code = 6 ∧ (sub = 1 ∨ sub = 2 ∨ sub = 3 ∨ sub = 9) then (6, 9) else (code, sub)
+
+/-- the NOTIFICATIONs as they go on the wire of an established session -/
+def wireNotifs (n : Bool) (outs : List Out) : List (Nat × Nat × Nat) :=
+  (notifs outs).map (fun (a, b, t) => ((convertNotification n a b).1, (convertNotification n a b).2, t))
+
+theorem convertNotification_eq_rfc (n : Bool) (code sub : Nat) :
+    convertNotification n code sub = rfc8538 n code sub := by
+  unfold convertNotification rfc8538 shouldHardReset
+  cases n <;> simp
+  by_cases h6 : code = 6 <;> simp [h6, or_assoc]
+
+/-- **notif_table_n** — `notif_table` under every negotiation outcome of RFC 8538 notification
+    support: in ESTABLISHED, for every event other than silence, what the daemon writes is the
+    NOTIFICATION of `rfcNotif` converted by the RFC 8538 rule (shutdown / disable / delete /
+    prefix limit become Cease/9 iff N is negotiated; reset, FSM and header errors never), at the
+    instant of the event; N is negotiated only if configured locally and offered by the peer. -/
+theorem notif_table_n (c : Cfg) (s : St) (e : Ev) (n : Bool) (hd : s.deleted = false)
+    (ht : ∀ t, e ≠ .tick t) :
+    wireNotifs n (step c s e).2 = (match rfcNotif c s e with
+                                   | some (a, b) => [((rfc8538 n a b).1, (rfc8538 n a b).2, s.now)]
+                                   | none => []) ∧
+    (∀ gl nl pg pn, nNegotiated gl nl pg pn = true → gl = true ∧ nl = true ∧ pg = true ∧ pn = true) := by
+  constructor
+  · unfold wireNotifs
+    rw [(notif_table c s e hd ht).1]
+    cases rfcNotif c s e with
+    | none => rfl
+    | some p => obtain ⟨a, b⟩ := p; simp [convertNotification_eq_rfc]
+  · intro gl nl pg pn h
+    simp [nNegotiated] at h
+    exact ⟨h.1.1.1, h.1.1.2, h.1.2, h.2⟩
+
+example : convertNotification true 6 2 = (6, 9) ∧ convertNotification true 6 4 = (6, 4) ∧
+    convertNotification false 6 2 = (6, 2) := by decide
+
 /-! ## timer state carried from one session to the next -/
 
 /-- outside IDLE the idle hold time is the default again (5 s): whatever an earlier
